@@ -294,3 +294,12 @@ CHECKS["C20"] = {
     "assumptions": ["state written and read inside one basic block is below the scheduler's resolution",
                     "the free-running ThreadSanitizer stage is auxiliary (bin/check --selftest tsan), never the deciding step"],
 }
+
+CHECKS["C05"]["batches"] += [
+    {"family": "hist", "mode": "faultrand", "cfgs": {"quick": ["A", "B", "G"], "thorough": ALL_CFGS},
+     "runs": {"quick": 20000, "thorough": 400000}},
+    {"family": "xfer", "mode": "anyfault", "cfgs": {"quick": ["A", "B"], "thorough": ALL_CFGS},
+     "runs": {"quick": 8000, "thorough": 200000}},
+]
+CHECKS["C05"]["rule"] += ("; plus random multi-failure subsets: histories and arbitrary-byte deserializations in which every "
+                          "failable allocator call fails with probability 1/2 .. 1/25 from a per-plan sub-seed")
